@@ -328,6 +328,11 @@ func vxC01Request(full bool) {
 	vx.Assert(err == nil, "request processing does not fail")
 	res := pctx.Res
 	vx.Assert(res != nil, "a response is produced")
+	vx.Note(len(vxC01Resolves))
+	if res != nil {
+		vx.Note(res.Rcode)
+		vx.Note(len(res.Answer))
+	}
 
 	// ---- reference decision (from the statement) ----
 	protection := protOn
